@@ -6,7 +6,7 @@ import ringcorr
 from vlib import g_str
 
 GEN = ['grammar', 'elements']
-COQ_DEPS = ['Ring/PegCorr.vo', 'Gen/RingGrammar.vo', 'Gen/Elements.vo']
+COQ_DEPS = ['Ring/PegCorr.vo', 'Ring/Peg_cert.vo', 'Gen/RingGrammar.vo', 'Gen/Elements.vo']
 ALLOWED = ('RINGSyntaxError', 'RINGReaderError', 'NotImplementedError')
 
 
